@@ -229,7 +229,7 @@ impl World {
         match self.tid_by_hash.get(&op.tx_hash()) {
             Some(t) => *t as u64 * 16 + idx as u64,
             None => match self.gcells.iter().position(|(g, _)| g == op) {
-                Some(k) => k as u64,
+                Some(k) => 2_000_000 + k as u64,
                 None => 1_000_000, // the always-success code cell (cell dep of every tx), never spent
             },
         }
@@ -382,7 +382,25 @@ fn after_chain_change(w: &mut World, out: &mut Out, pre: &[PEnt], old_chain: &[B
         });
         let conflict = t.input_pts_iter().any(|op| pool_spent.contains(&w.op_code(&op)));
         let hdr_ok = t.header_deps_iter().all(|h| snap.is_main_chain(&h));
-        if resolvable && !conflict && hdr_ok {
+        // ancestor policy: 1 + number of pooled ancestors must not exceed max_ancestors_count
+        let mut anc: HashSet<usize> = HashSet::new();
+        let mut stack: Vec<usize> = t.input_pts_iter().filter_map(|op| w.tid_by_hash.get(&op.tx_hash()).cloned()).filter(|s| have.contains(s)).collect();
+        while let Some(x) = stack.pop() {
+            if anc.insert(x) {
+                for op in w.txs[x - 1].input_pts_iter() {
+                    if let Some(s) = w.tid_by_hash.get(&op.tx_hash()) {
+                        if have.contains(s) {
+                            stack.push(*s);
+                        }
+                    }
+                }
+            }
+        }
+        let within_policy = (anc.len() as u64) + 1 <= w.cfg.max_ancestors;
+        if !within_policy {
+            out.count("detached-only-tx-over-ancestor-limit");
+        }
+        if resolvable && !conflict && hdr_ok && within_policy {
             out.oracle_fail(&format!("lost-tx{suffix}"), &format!("tx{tid} was committed only on the abandoned branch, is resolvable on the new chain + pool, but is not pooled"));
         } else {
             out.count("detached-only-tx-inadmissible");
